@@ -36,7 +36,7 @@
 From Coq Require Import List NArith Bool String.
 Open Scope string_scope.
 From ApiFu Require Import Base.Sexp Gen.GoTypes Gen.ClientGenModel Gen.DecodeModel Gen.ClientGenSpec
-     Gen.ClientGenMain Gen.ClientGenWitness.
+     Gen.ClientGenMain Gen.ClientGenWitness Gen.ClientGenClauses.
 Import ListNotations.
 
 (** the generator accepts every operation of the envelope and its output is well formed *)
@@ -44,6 +44,15 @@ Theorem C20_gen_wf_partial : forall S d,
   env S d = true -> excl_member_clash S d = false -> excl_decl_clash S d = false ->
   exists p, generate no_quirks S (doc_valid S d) d = GOk p /\ wf_program p = true.
 Proof. exact gen_accepts_wf. Qed.
+
+(** the same, clause by clause (definitions and the Go rule each clause stands for: ClientGenClauses.v):
+    distinct struct members and well-targeted UnmarshalJSON statements, declared references,
+    forwarders only to types with the method, identifiers *)
+Theorem C20_gen_wf_clauses_partial : forall S d,
+  env S d = true -> excl_member_clash S d = false -> excl_decl_clash S d = false ->
+  exists p, generate no_quirks S (doc_valid S d) d = GOk p /\
+            cl_struct_members p /\ cl_references p /\ cl_method_forwarders p /\ cl_identifiers p.
+Proof. exact gen_wf_clauses. Qed.
 
 (** decoding any response shaped by a named operation yields exactly the selected leaves *)
 Theorem C20_gen_decodes : forall S d,
@@ -105,6 +114,7 @@ Theorem C20_refuted_decl_name_clash :
 Proof. exact refuted_decl_name_clash. Qed.
 
 Print Assumptions C20_gen_wf_partial.
+Print Assumptions C20_gen_wf_clauses_partial.
 Print Assumptions C20_gen_decodes.
 Print Assumptions C20_gen_invalid_no_output.
 Print Assumptions C20_refuted_before_fix_27.
